@@ -165,6 +165,41 @@ def verdict (op : String) (num den : Nat) (iter : List Code) (q : Replies) : Opt
   else if q.rejections.length > 0 ∧ cmpOp op (countCode .invalid q.rejections * den) (num * q.replies.length) then some .invalid
   else none
 
+/-! ## How `sendTransaction` fills `replies` / `rejections` (its response handler + `queryAllPeers`) -/
+
+/-- what reaches the query loop for the transaction being broadcast -/
+inductive PeerMsg
+  | getdata (p : Nat)            -- peer p asks for the tx (getdata naming it)
+  | reject (p : Nat) (c : Code)  -- peer p sends a reject naming the tx; c = ParseBroadcastError of it
+  | timeout (p : Nat)            -- p's sub-query ended (reject timeout after its getdata, or the broadcast timeout)
+deriving DecidableEq, Repr
+
+structure Collect where
+  replies : List Nat := []
+  rejections : List (Nat × Code) := []
+  /-- peers whose `peerQuit` is closed: `queryAllPeers` no longer hands their messages to the handler -/
+  closed : List Nat := []
+deriving DecidableEq, Repr
+
+/-- One message.  `guard` = the reject arm returns at once for a peer that is not in `replies`
+(source fact `rejectRequiresReply`).  A recorded rejection closes the peer (`closer.closeNow()`). -/
+def collectStep (guard : Bool) (s : Collect) : PeerMsg → Collect
+  | .getdata p =>
+    if s.closed.contains p then s
+    else if s.replies.contains p then s
+    else { s with replies := s.replies ++ [p] }
+  | .reject p c =>
+    if s.closed.contains p then s
+    else if guard && !s.replies.contains p then s
+    else { s with rejections := s.rejections.filter (fun x => x.1 != p) ++ [(p, c)], closed := p :: s.closed }
+  | .timeout p => { s with closed := p :: s.closed }
+
+def collectFrom (guard : Bool) (s : Collect) (msgs : List PeerMsg) : Collect := msgs.foldl (collectStep guard) s
+
+def collect (guard : Bool) (msgs : List PeerMsg) : Replies :=
+  let s := collectFrom guard {} msgs
+  ⟨s.replies, s.rejections⟩
+
 /-! ## `pushtx.ParseBroadcastError` as a first-match table -/
 
 def isPrefix : List Char → List Char → Bool
